@@ -692,7 +692,10 @@ def _run_one(ctx, spec, eq, order, species, T, P, A, b, bsum, g, mu0, ref, pbase
         status = 'ok' if not failed else m['status']
     hist = ctx.extra['status_histogram']
     hist[str(status)] = hist.get(str(status), 0) + 1
-    mech = dict(pbase, solver_status=status, signalled=signalled)
+    # Q1, Q2, Q6 are keyed by network / rank / solver outcome; Q3-Q5 additionally by the regime of the
+    # equilibrium (regular | deep_trace | forced_zero) and the span class
+    mech = {'network': pbase['network'], 'rank': pbase['rank'], 'solver_status': status, 'signalled': signalled}
+    mech_r = dict(pbase, solver_status=status, signalled=signalled)
     detail = dict(T=T, P=P, order=tag, warnings=warns[:3], minimize=mins[-1:] if mins else None)
     # ---- Q6 signal clause
     if failed is not None:
@@ -764,7 +767,7 @@ def _run_one(ctx, spec, eq, order, species, T, P, A, b, bsum, g, mu0, ref, pbase
         if d < -TOL_Q3 * scale:
             ctx.inconc('Q3', 'reference_higher_than_pmutt', d=d, G_ref=ref.G, T=T, P=P)
         else:
-            ctx.close('Q3', max(d, 0.0) / scale, 0.0, TOL_Q3, dict(mech, what='gibbs_excess'),
+            ctx.close('Q3', max(d, 0.0) / scale, 0.0, TOL_Q3, dict(mech_r, what='gibbs_excess'),
                       scale=1.0, G_excess=d, G_plain_difference=d_plain, G_ref=ref.G, n_ref=ref.n,
                       ref_gap=ref.gap, **detail)
             if status == 'ok':
@@ -796,7 +799,7 @@ def _run_one(ctx, spec, eq, order, species, T, P, A, b, bsum, g, mu0, ref, pbase
         if status == 'ok':
             _bump(ctx, 'Q4[%s,%s]' % (pbase['rank'], pbase['regime']), abs(aff) / w)
         ctx.branch('Q4:minor_species' if float(np.min(xb[nu != 0])) < 1e-3 else 'Q4:major_species_only')
-        ctx.close('Q4', aff / w, 0.0, TOL_Q4, dict(mech, what='affinity'), scale=1.0,
+        ctx.close('Q4', aff / w, 0.0, TOL_Q4, dict(mech_r, what='affinity'), scale=1.0,
                   affinity=aff, weight=w, nu=nu, species=[species[i]['name'] for i in big],
                   x=xb, x_ref=(ref.n[big] / ref.N) if ref.converged else None, **detail)
     return n, status
